@@ -148,3 +148,10 @@ pub fn announce(a: &Args) {
     let out = rt.block_on(ractor_cluster::node::node_session::verif_probe::verif_announce(&adv, &rem, a.str("event")));
     println!("out={}", out.replace('=', "~"));
 }
+
+/// session_child_exit child=<tcp|proxy|stranger> event=<ActorTerminated|ActorFailed>
+pub fn child_exit(a: &Args) {
+    let rt = tokio::runtime::Builder::new_current_thread().enable_time().build().unwrap();
+    let out = rt.block_on(ractor_cluster::node::node_session::verif_probe::verif_child_exit(a.str("child"), a.str("event")));
+    println!("out={}", out.replace('=', "~"));
+}
